@@ -409,6 +409,30 @@ class _Num(Sym):
         return bool(self != 0)
 
 
+def _num_clip(self, min=None, max=None, out=None, **kw):
+    a_min = kw.get("a_min", min)
+    a_max = kw.get("a_max", max)
+    r = self
+    if a_min is not None:
+        r = sym_ite(r < a_min, a_min, r)
+    if a_max is not None:
+        r = sym_ite(r > a_max, a_max, r)
+    return r
+
+
+# NumPy-scalar flavoured surface (results of full reductions are scalars there)
+_Num.clip = _num_clip
+_Num.shape = ()
+_Num.ndim = 0
+_Num.size = 1
+_Num.sum = lambda self, *a, **k: self
+_Num.mean = lambda self, *a, **k: self
+_Num.min = lambda self, *a, **k: self
+_Num.max = lambda self, *a, **k: self
+_Num.copy = lambda self: self
+_Num.squeeze = lambda self, *a: self
+
+
 class SInt(_Num):
     __slots__ = ()
 
@@ -821,6 +845,14 @@ class Ctx(object):
     def _feas(self, extra=None):
         t0 = time.time()
         self.stats.feas_queries += 1
+        if self.axioms and getattr(self, "_incr_gave_up", 0) >= 2:
+            # polynomial path conditions: incremental mode keeps timing out, go straight
+            # to a fresh solver
+            r = self._feas_fresh(extra)
+            self.stats.solver_s += time.time() - t0
+            if r == "unknown":
+                self.stats.feas_unknown += 1
+            return r
         if extra is not None:
             self.solver.push()
             self.solver.add(extra)
@@ -829,10 +861,29 @@ class Ctx(object):
         finally:
             if extra is not None:
                 self.solver.pop()
+        if r == "unknown":
+            self._incr_gave_up = getattr(self, "_incr_gave_up", 0) + 1
+            # incremental mode gives up on polynomial constraints a fresh solver decides
+            r = self._feas_fresh(extra)
         self.stats.solver_s += time.time() - t0
         if r == "unknown":
             self.stats.feas_unknown += 1
         return r
+
+    def _feas_fresh(self, extra):
+        hyps = list(self.pc) + list(self.axioms) + ([extra] if extra is not None else [])
+        for mk in (lambda: z3.Solver(), lambda: z3.Tactic("qfnra-nlsat").solver()):
+            try:
+                s = mk()
+                s.set("timeout", self.feas_timeout_ms)
+                for h in hyps:
+                    s.add(h)
+                r = str(s.check())
+            except z3.Z3Exception:
+                r = "unknown"
+            if r != "unknown":
+                return r
+        return "unknown"
 
     def _check_budget(self):
         if self.deadline is not None and time.time() > self.deadline:
